@@ -92,7 +92,8 @@ def run_case(spec):
         yield 'pair_distance(single-pair batches)', single, None
         reps = -(-BIG // len(pairs))
         tiled = np.tile(pairs, (reps, 1, 1))
-        for exact_size in (4096, 2 ** 15):          # sizes that ARE multiples of every plausible block size
+        # sizes that ARE multiples of every plausible block size, and sizes one past / one short of a power of two (a one-pair tail block)
+        for exact_size in (4096, 2 ** 15, 2 ** 13 + 1, 2 ** 14 + 1, 2 ** 15 + 1, 2 ** 16 + 1, 2 ** 13 - 1, 2 ** 10 + 1):
             part = est.pair_distance(tiled[:exact_size])
             idx_p = np.arange(exact_size) % (nq * nq)
             devp = np.abs(part - ref.ravel()[idx_p])
